@@ -208,10 +208,17 @@ impl<T> Store<T> {
 }
 
 impl Store {
-    pub(super) fn last_dependent_access(&self, operation: Operation) -> Option<&Access> {
-        match &self.entries[operation.obj.index] {
+    /// Calls `f` with every earlier access `operation` is dependent with.
+    pub(super) fn for_each_dependent_access(
+        &self,
+        operation: Operation,
+        mut f: impl FnMut(&Access),
+    ) {
+        let access = match &self.entries[operation.obj.index] {
             Entry::Arc(entry) => entry.last_dependent_access(operation.action.into()),
-            Entry::Atomic(entry) => entry.last_dependent_access(operation.action.into()),
+            Entry::Atomic(entry) => {
+                return entry.for_each_dependent_access(operation.action.into(), f);
+            }
             Entry::Mutex(entry) => entry.last_dependent_access(),
             Entry::Condvar(entry) => entry.last_dependent_access(),
             Entry::Notify(entry) => entry.last_dependent_access(),
@@ -221,6 +228,10 @@ impl Store {
                 "object is not branchable {:?}; ref = {:?}",
                 obj, operation.obj
             ),
+        };
+
+        if let Some(access) = access {
+            f(access);
         }
     }
 
